@@ -1452,13 +1452,16 @@ PPL::Polyhedron::add_generator(const Generator& g) {
     if (g.is_necessarily_closed() || !is_necessarily_closed()) {
       // Since `gen_sys' is not empty, the topology and space dimension
       // of the inserted generator are automatically adjusted.
-      if (has_pending) {
-        gen_sys.insert_pending(g);
-      }
-      else {
-        gen_sys.insert(g);
-      }
       if (!is_necessarily_closed() && g.is_point()) {
+        // The point is inserted twice: `g' may be (a reference to) a row
+        // of `gen_sys' itself, which the first insertion invalidates.
+        const Generator g_copy(g);
+        if (has_pending) {
+          gen_sys.insert_pending(g_copy);
+        }
+        else {
+          gen_sys.insert(g_copy);
+        }
         // In the NNC topology, each point has to be matched by
         // a corresponding closure point:
         // turn the just inserted point into the corresponding
@@ -1469,11 +1472,17 @@ PPL::Polyhedron::add_generator(const Generator& g) {
         PPL_ASSERT(gen_sys.sys.OK());
         // Re-insert the point (which is already normalized).
         if (has_pending) {
-          gen_sys.insert_pending(g);
+          gen_sys.insert_pending(g_copy);
         }
         else {
-          gen_sys.insert(g);
+          gen_sys.insert(g_copy);
         }
+      }
+      else if (has_pending) {
+        gen_sys.insert_pending(g);
+      }
+      else {
+        gen_sys.insert(g);
       }
     }
     else {
